@@ -26,6 +26,7 @@ def bounds(tier):
 
 
 def gen_cases(tier):
+    yield {"kind": "codec", "cxx": "g++"}
     bound = 1 if tier == "quick" else 2
     for forced, trace, prog in explore.enumerate_vectors(embgen.program, bound):
         cap = 1024 if tier == "quick" else 4096
@@ -56,6 +57,16 @@ def classify(stderr):
 
 
 def check_case(case):
+    if case.get("kind") == "codec":
+        # the integer text codec over all 8/16-bit values, boundary 32/64-bit values and near-limit / malformed literals, sanitized
+        from checks import c06
+        r = c06.check_codec(flags=["-O1", "-g", "-fsanitize=address,undefined", "-fno-sanitize-recover=all"], sanitized=True)
+        for v in r.get("viol", []):
+            if v["key"] == "sanitizer-report-in-text-codec":
+                v["key"] = classify(v["msg"])
+        r["viol"] = [v for v in r.get("viol", []) if not v["key"].startswith("codec-")]      # value-level verdicts are C06's
+        r["nt"] = ["codec"]
+        return r
     prog = explore.replay(embgen.program, case["vector"])
     files = prog.files()
     stats = {"programs": 1, "accepted": 0}
@@ -93,5 +104,7 @@ def check_case(case):
 
 
 def sample_of(case):
+    if case.get("kind") == "codec":
+        return {"kind": "codec", "what": "integer text codec sweep under ASan+UBSan"}
     prog = explore.replay(embgen.program, case["vector"])
     return {"choice_vector": case["vector"], "compiler": case["cxx"], "emb": prog.files()["m.emb"]}
